@@ -761,7 +761,8 @@ func genCase(t *rapid.T) Case {
 		} else if rapid.Bool().Draw(t, "prologue") {
 			target = "signedexchange.ReadExchangePrologue"
 		}
-		switch rapid.IntRange(0, 3).Draw(t, "sxgmut") {
+		switch rapid.IntRange(0, 4).Draw(t, "sxgmut") {
+		case 4: // untouched: the code behind a VALID signature (acceptance policy) is parser code too
 		case 0: // length fields of the prologue
 			off := 8
 			if file[6] != '1' { // not 1b1: fallback URL first
@@ -972,6 +973,45 @@ func TestPropParsers(t *testing.T) {
 		}
 		return c
 	})
+}
+
+// TestStatusSweep: validly signed exchanges with EVERY status code -1..1100 (and a few larger
+// ones), with no explicit freshness, with Expires, with max-age: Verify must return (never
+// panic), whatever it decides. The statuses are what an attacker-chosen but correctly signed
+// file can carry; table lookups keyed by the status live behind the signature check.
+func TestStatusSweep(t *testing.T) {
+	statuses := []int{1 << 15, 1 << 16, 1<<31 - 1, -1, -200}
+	for st := 0; st <= 1100; st++ {
+		statuses = append(statuses, st)
+	}
+	n := 0
+	for _, st := range statuses {
+		for fi, fresh := range [][]gen.HeaderKV{nil, {{Name: "Expires", Values: []string{"Thu, 01 Dec 2033 16:00:00 GMT"}}}, {{Name: "Cache-Control", Values: []string{"max-age=3600"}}}} {
+			if fi > 0 && st%7 != 0 {
+				continue
+			}
+			for _, ver := range []string{"1b3", "1b2"} {
+				if ver == "1b2" && st%50 != 0 {
+					continue
+				}
+				s := sxgkit.Spec{Version: ver, URL: "https://a.example/", Method: "GET", Status: st, PayloadLen: 10, RecordSize: 16, Fixture: 0, Date: 1_700_000_000 - 10, Expires: 1_700_000_000 + 100,
+					ValidityURL: "https://a.example/v", CertURL: "https://a.example/c", ResHeaders: append([]gen.HeaderKV{{Name: "Content-Type", Values: []string{"text/html"}}}, fresh...)}
+				e, _, err := sxgkit.Build(&s)
+				if err != nil {
+					continue
+				}
+				var buf bytes.Buffer
+				if err := e.Write(&buf); err != nil {
+					continue
+				}
+				n++
+				if !prop.One(t, Case{Target: "signedexchange.Verify", Input: buf.Bytes(), Aux: sxgkit.ChainCBOR(0), Origin: "status-sweep"}) {
+					return
+				}
+			}
+		}
+	}
+	vh.Exhaustive("parsers", fmt.Sprintf("status sweep: validly signed 1b3 (and some 1b2) exchanges with every status -1..1100 and a few larger, with / without explicit freshness, through ReadExchange + Verify: %d files", n))
 }
 
 // ---------------------------------------------------------------------------------------
